@@ -41,12 +41,11 @@ func (in *Interp) checkTable(a []Value, i int, fname string) *Table {
 func (in *Interp) checkNum(a []Value, i int, fname string) float64 {
 	v := deline(arg(a, i))
 	if s, ok := v.(string); ok {
-		f, st := StrToNum(s)
-		if st == numGrey {
-			unspecified("grey numeric string as a library argument")
-		}
-		if st == numOK {
-			return f
+		_, st := StrToNum(s)
+		if st != numNo {
+			// 5.1 library functions coerce numeric strings, gopher-lua's CheckInt/CheckNumber do not: no listed property
+			// speaks about it
+			unspecified("numeric string where a library function expects a number")
 		}
 	}
 	f, ok := v.(float64)
@@ -346,6 +345,9 @@ func openBase(in *Interp) {
 		return a
 	})
 	in.reg(G, "error", func(in *Interp, a []Value) []Value {
+		if len(a) == 0 {
+			unspecified("error() without any argument") // 5.1 raises nil, gopher-lua reports a missing argument: not fixed by a property
+		}
 		v := arg(a, 0)
 		level := in.optInt(a, 1, "error", 1)
 		_, isStr := v.(string)
